@@ -266,7 +266,7 @@ theorem C10_source_facts :
       "reporter.ProcessBlock", "reporter.NotifyProgress",
       "s.cfg.BestSnapshot", "reporter.FailRemaining", "reporter.NotifyUnspentAndUnfound"] ∧
     Gen.Utxo.watchListSources = ["b.outpoints"] ∧
-    Gen.Utxo.notifyRequestsSeq = ["delete b.requests", "delete b.initialTxns", "delete b.outpoints", "deliver"] ∧
+    Gen.Utxo.notifyRequestsSeq = ["delete b.initialTxns", "delete b.outpoints", "delete b.requests", "deliver"] ∧
     Gen.Utxo.initialKeepsNonNil = true ∧
     Gen.Utxo.deliverNonBlocking = true ∧
     Gen.Utxo.resultChecksCacheFirst = true ∧
